@@ -29,7 +29,9 @@ CONSTANTS FreeBits, Kind
 VARIABLES
   pA, bitsA, stackA, offA, idxA, attrsA, intsA, satsA, sigsA, cellsA, mapsOkA, identA, midA, stA,
   pB, bitsB, stackB, offB, idxB, attrsB, intsB, satsB, sigsB, cellsB, mapsOkB, identB, midB, stB,
-  diverged      \* the step at which B failed while A went on: [offA0, offA1] or << >>
+  diverged,     \* the step at which B failed while A went on: [offA0, offA1] or << >>
+  layoutA,      \* ghost: the fields A has read so far: <<name, attribute name, from, to>>
+  flipped       \* Kind = "flip": the (1-based) payload bit in which B differs from A; else 0
 
 A == INSTANCE Decode WITH Fields <- PFields, Defs <- PDefs, TableOf <- PTable,
        p <- pA, bits <- bitsA, stack <- stackA, off <- offA, idx <- idxA, attrs <- attrsA, ints <- intsA,
@@ -40,7 +42,7 @@ B == INSTANCE Decode WITH Fields <- PFields, Defs <- PDefs, TableOf <- PTable,
 
 varsA == <<pA, bitsA, stackA, offA, idxA, attrsA, intsA, satsA, sigsA, cellsA, mapsOkA, identA, midA, stA>>
 varsB == <<pB, bitsB, stackB, offB, idxB, attrsB, intsB, satsB, sigsB, cellsB, mapsOkB, identB, midB, stB>>
-vars == <<varsA, varsB, diverged>>
+vars == <<varsA, varsB, diverged, layoutA, flipped>>
 
 P2(n) == 2 ^ n
 NBytes == 2 + ((FreeBits - 4 + 7) \div 8)
@@ -56,19 +58,32 @@ Variants(q) ==
   IF Kind = "cut" THEN {SubSeq(q, 1, c) : c \in 2 .. (Len(q) - 1)}
   ELSE {q \o <<x>> : x \in {0, 255, 170}} \cup {q \o <<85, 3>>}
 
+\* q with payload bit b (1-based, MSB first) inverted
+FlipBit(q, b) ==
+  LET i == ((b - 1) \div 8) + 1
+      m == P2(7 - ((b - 1) % 8))
+  IN  [q EXCEPT ![i] = IF (@ \div m) % 2 = 1 THEN @ - m ELSE @ + m]
+
 Init ==
   /\ \E id \in DOMAIN PDefs : \E t \in 0 .. (P2(FreeBits) - 1) :
        LET q == PayloadOf(Hdr[id], t) IN
        /\ A!Load(q)
-       /\ \E v \in Variants(q) : B!Load(v)
-  /\ diverged = << >>
+       /\ IF Kind = "flip"
+          THEN \E b \in 13 .. (12 + FreeBits) : B!Load(FlipBit(q, b)) /\ flipped = b
+          ELSE (\E v \in Variants(q) : B!Load(v)) /\ flipped = 0
+  /\ diverged = << >> /\ layoutA = << >>
 
 \* lockstep: both machines step together while both can
+\* ghost: A's field layout (a step that moved the offset read the field at the top of A's stack)
+Track == layoutA' = IF offA' # offA /\ stackA # << >>
+                    THEN Append(layoutA, <<A!Node.n, A!Render(A!Node.n, IF PFields[A!Node.n].t = "STR" THEN << >> ELSE idxA), offA + 1, offA'>>)
+                    ELSE layoutA
 Both == /\ ~A!Terminal /\ ~B!Terminal
-        /\ A!DecodeNext /\ B!DecodeNext
+        /\ A!DecodeNext /\ B!DecodeNext /\ Track
         /\ diverged' = IF stB' = "fail" /\ stA' # "fail" THEN <<offA, offA'>> ELSE diverged
-OnlyA == /\ ~A!Terminal /\ B!Terminal /\ A!DecodeNext /\ UNCHANGED <<varsB, diverged>>
-OnlyB == /\ A!Terminal /\ ~B!Terminal /\ B!DecodeNext /\ UNCHANGED <<varsA, diverged>>
+        /\ UNCHANGED flipped
+OnlyA == /\ ~A!Terminal /\ B!Terminal /\ A!DecodeNext /\ Track /\ UNCHANGED <<varsB, diverged, flipped>>
+OnlyB == /\ A!Terminal /\ ~B!Terminal /\ B!DecodeNext /\ UNCHANGED <<varsA, diverged, layoutA, flipped>>
 Next == Both \/ OnlyA \/ OnlyB
 Spec == Init /\ [][Next]_vars
 
@@ -95,4 +110,33 @@ TailIndependent ==
     /\ (stA \in {"begin", "run"} => SameMachine)
     /\ (A!Terminal /\ B!Terminal /\ stA \in {"ok", "stub"} => (attrsB = attrsA /\ stB = stA))
     /\ (stB = "fail" => stA = "fail" \/ ~A!Terminal)
+
+\* ---- Kind = "flip" ----------------------------------------------------------------
+\* names that steer the decoding (repeat counters, conditions, masks, harmonic degree/order,
+\* identity): a field is PLAIN if its name is none of them
+RECURSIVE Steering(_)
+Steering(body) ==
+  UNION {IF body[i].k = "grp" THEN (IF body[i].ct = "attr" THEN {body[i].ca} ELSE {}) \cup Steering(body[i].body)
+         ELSE IF body[i].k = "opt" THEN {body[i].ca} \cup Steering(body[i].body)
+         ELSE {} : i \in 1 .. Len(body)}
+NotPlain(id) == Steering(PDefs[id]) \cup {"DF002", "IDF001", "IDF002", "DF394", "DF395", "DF396", "IDF035", "IDF037", "IDF038"}
+
+\* the layout entry of A that holds the flipped bit (0 if the bit lies behind the last field)
+Holder == LET H == {i \in 1 .. Len(layoutA) : layoutA[i][3] <= flipped /\ flipped <= layoutA[i][4]}
+          IN  IF H = {} THEN 0 ELSE CHOOSE i \in H : TRUE
+
+\* FieldLocal (C03): inverting one bit of a plain field changes that attribute and nothing else -
+\* same outcome, same names in the same order, same values everywhere else; a bit behind the last
+\* field changes nothing at all
+FieldLocal ==
+  (Kind = "flip" /\ A!Terminal /\ B!Terminal /\ stA = "ok") =>
+    LET h == Holder IN
+    IF h = 0 THEN (stB = "ok" /\ attrsB = attrsA)
+    ELSE (layoutA[h][1] \notin NotPlain(identA)) =>
+           /\ stB = "ok" /\ Len(attrsB) = Len(attrsA)
+           /\ \A i \in 1 .. Len(attrsA) :
+                 /\ attrsB[i].n = attrsA[i].n
+                 /\ (attrsA[i].n # layoutA[h][2] => attrsB[i] = attrsA[i])
+           \* (the attribute itself need not change: sign-magnitude "minus zero" and elided NULs
+           \*  make the value map non-injective)
 =============================================================================
